@@ -13,6 +13,19 @@ open XmppModel.Close
 
 /-! ### Tie to the source -/
 
+/-- **lock discipline** (what cannot be probed from one goroutine; regenerated from the source by
+an abstract walk that follows calls into the package, closures and method values, accepts if
+chains and switches alike and takes the names of the locks from the exported anchors
+`TokenWriter` / `State`): every exported entry point that looks at or sets the closed bit of the
+output stream — in its body or in any helper — does so while it holds the output lock (so the
+answer of the test cannot be overtaken by a `Close`: hypothesis `checks` of the `Lts` senders, the
+`locked` control point); the input context `SetCloseDeadline` replaces is touched under the state
+mutex only (the data race of round 1). -/
+theorem C10_gen_lock_discipline :
+    Generated.C10.closedBitUnderOutputLock = some
+      [("Close", true), ("Encode", true), ("EncodeElement", true), ("Send", true), ("SendElement", true), ("Serve", true)] ∧
+    Generated.C10.deadlineSynchronised = some true := by decide
+
 /-- **probe fact** (the real session was run by `harness facts`): for every way the streams get
 closed — `Close`, `Close` twice, `Serve` ending on the peer's closing tag, on a handler error
 (`sendError`), on a handler's stream error, on the close deadline, `Close` followed by `Serve` —
